@@ -59,6 +59,10 @@ def file_bytes(st, name, path):
     }[base]
 
 
+def stdout_of(st, name, repetition):
+    return "stdout-of-%d-%s%s" % (st, name, "" if repetition is None else "-repetition-%d" % repetition)
+
+
 def output_value(data):
     """The documented value of an :output reference: the contents decoded as utf-8 (undecodable bytes -> U+FFFD) minus
     the trailing newline characters; everything else verbatim."""
@@ -76,6 +80,8 @@ def spelled(ref, sp):
 def input_cause(case):
     """Which relation between the declared references of the case can confuse a substitution (class of the input)."""
     decl = case["decl"]
+    if any(d["kind"] == "out" and d.get("rep") == "yes" and d.get("last", 0) < 0 and d["usage"] for d in decl):
+        return "output-of-repeating-producer-without-streams"
     occ = []          # (index of the reference, text of the occurrence)
     for d in decl:
         for sp in d["usage"]:
@@ -104,8 +110,12 @@ def input_cause(case):
     used = [d for d in decl if d["usage"]]
     if any(R(d["file"]) and os.path.normpath(R(d["file"])) != R(d["file"]) or "*" in R(d["file"]) for d in used):
         return "file-part-spelled-unnormalised-or-glob"
+    if any(d["kind"] == "out" and not R(d["file"]) for d in used):
+        return "output-without-file-part"
     if any(d["kind"] == "out" and R(d["file"]) != "out.txt" for d in used):
         return "output-file-contents-class"
+    if case.get("via", "literal") != "literal":
+        return "declared-in-relative-spelling-at-graph-time"
     return None
 
 
@@ -136,21 +146,50 @@ class Runner:
         """one real experiment: all producers of the universe + one consumer per case"""
         sc = self.realenv.simple_component
         producers = sorted(set((u["st"], R(u["name"])) for u in universe))
-        comps = [sc(nm, st, args="produce") for st, nm in producers]
+        # (repeating?, newest repetition / has run) of every producer, as the universe of the spec says
+        pinfo = {}
+        for u in universe:
+            pinfo.setdefault((u["st"], R(u["name"])), (u.get("rep", "no"), u.get("last", 0)))
+            if pinfo[(u["st"], R(u["name"]))] != (u.get("rep", "no"), u.get("last", 0)):
+                raise MachineryError("universe of Subst.tla describes producer %s inconsistently" % R(u["name"]))
+        comps = []
+        for st, nm in producers:
+            extra = {"workflowAttributes": {"repeatInterval": 1}} if pinfo[(st, nm)][0] == "yes" else {}
+            comps.append(sc(nm, st, args="produce", **extra))
+        pnames = sorted(set(nm for _, nm in producers))
+        varname = {nm: "n%d" % k for k, nm in enumerate(pnames)}
+        via = cases[0].get("via", "literal")
+        if any(c.get("via", "literal") != via for c in cases):
+            raise MachineryError("a batch mixes ways of declaring references")
         names = []
         for k, case in enumerate(cases):
             refs = []
             for d in case["decl"]:
                 same = d["st"] == 1
-                refs.append(spelled(d, "rel" if (same and case["style"] == "plain") else "abs"))
+                if via == "literal":
+                    refs.append(spelled(d, "rel" if (same and case["style"] == "plain") else "abs"))
+                elif via == "variable":
+                    # the producer's name comes from a variable: the loader leaves the reference alone
+                    tail = R(d["rel"])[len(R(d["name"])):]
+                    refs.append(("" if same else "stage%d." % d["st"]) + "%%(%s)s" % varname[R(d["name"])] + tail)
+                else:
+                    refs.append(spelled(d, "rel" if same else "abs"))
             nm = "consumer%04d" % k
             names.append(nm)
-            comps.append(sc(nm, 1, args=R(case["args"]), references=refs))
+            if via == "override":
+                comps.append(sc(nm, 1, args=R(case["args"]), override={"plat": {"references": refs}}))
+            else:
+                comps.append(sc(nm, 1, args=R(case["args"]), references=refs))
+        doc = {"components": comps}
+        if via == "variable":
+            doc["variables"] = {"default": {"global": {v: n for n, v in varname.items()}}}
+        if via == "override":
+            doc["platforms"] = ["default", "plat"]
         loc = os.path.join(self.chk.scratch, "exp%d" % self.nexp)
         self.nexp += 1
         os.makedirs(loc)
         try:
-            exp = self.realenv.experiment_from_flowir({"components": comps}, loc, validate=False)
+            exp = self.realenv.experiment_from_flowir(doc, loc, validate=False, platform="plat" if via == "override" else None)
         except Exception as e:
             if len(cases) == 1:
                 self.judge_load_failure(universe, cases[0], e)
@@ -175,6 +214,17 @@ class Runner:
             for rel in PRODUCER_FILES:
                 with open(os.path.join(d, rel), "wb") as f:
                     f.write(quoted[0].encode() if (quoted and rel == "out.txt") else file_bytes(st, nm, rel))
+            # stdout: out.stdout of a producer that has run; streams/<n>.stdout (the five newest) of a repeating one
+            repeating, last = pinfo[(st, nm)]
+            if repeating == "yes":
+                if last >= 0:
+                    os.makedirs(os.path.join(d, "streams"), exist_ok=True)
+                    for n in range(max(0, last - 4), last + 1):
+                        with open(os.path.join(d, "streams", "%d.stdout" % n), "w") as f:
+                            f.write(stdout_of(st, nm, n) + "\n")
+            elif last >= 0:
+                with open(os.path.join(d, "out.stdout"), "w") as f:
+                    f.write(stdout_of(st, nm, None) + "\n")
             values[(st, nm)] = d
         # value of every reference of the universe, computed by the harness from the files it wrote.  A path value is
         # accepted verbatim (directory + file part as written) or normalised: both are "the path of the referenced file"
@@ -186,8 +236,12 @@ class Runner:
             if u["kind"] == "ref":
                 valmap[u["val"]] = os.path.join(d, fpart) if fpart else d
                 valnorm[u["val"]] = os.path.normpath(valmap[u["val"]])
+            elif u["kind"] == "out" and not fpart:
+                repeating, last = pinfo[(st, nm)]
+                # the stdout of the producer (of its most recent repetition); nothing there yet -> the empty text
+                valmap[u["val"]] = valnorm[u["val"]] = "" if last < 0 else stdout_of(st, nm, last if repeating == "yes" else None)
             elif u["kind"] == "out":
-                target = os.path.normpath(os.path.join(d, fpart.replace("out.*", "out.txt")))   # the one file the glob matches
+                target = os.path.normpath(os.path.join(d, fpart.replace("out.tx*", "out.txt")))   # the one file the glob matches
                 rel = os.path.relpath(target, d)
                 valmap[u["val"]] = valnorm[u["val"]] = output_value(file_bytes(st, nm, rel))   # (a quoting value is spelled out by the spec)
             else:
@@ -214,7 +268,8 @@ class Runner:
             [spelled(d, "abs") for d in case["decl"]], R(case["args"]), e), {"case": case, "universe": universe})
 
     def case_key(self, case):
-        return (tuple((spelled(d, "abs"), tuple(d["usage"])) for d in case["decl"]), case["style"], case["fault"], R(case["extra"]))
+        return (tuple((spelled(d, "abs"), tuple(d["usage"])) for d in case["decl"]), case["style"], case["fault"], R(case["extra"]),
+                case.get("via", "literal"))
 
     def run_case(self, exp, node, case, valmap, universe):
         E = self.E
@@ -244,6 +299,8 @@ class Runner:
                 if got == seq:
                     self.stats["mismatch_predicted_by_sequential"] += 1
                     key = "subst:" + (cause or "sequential-other")
+                elif cause == "output-of-repeating-producer-without-streams":
+                    key = "subst:" + cause
                 else:
                     key = "subst:unexplained:" + (cause or "plain")
                 self.fail(key, "component declaring %s (in this order) with arguments %r resolves to %r, specification %r" % (
@@ -274,10 +331,12 @@ class Runner:
             self.fail(key, what, rp)
 
 
-def family_cfg(refu, maxrefs, styles, full, faults, emit):
-    return ("CONSTANTS\n  RefU <- %s\n  MaxRefs = %d\n  Styles = {%s}\n  FullUsage = %s\n  Faults = %s\n  Emit = %s\n  Quoting <- %s\n" % (
-        refu, maxrefs, ", ".join('"%s"' % s for s in styles), "TRUE" if full else "FALSE", "TRUE" if faults else "FALSE",
-        "TRUE" if emit else "FALSE", "QuotingTwo" if refu == "RefUQuote" else "NoQuoting"))
+def family_cfg(refu, maxrefs, styles, full, faults, emit, vias=("literal",)):
+    return ("CONSTANTS\n  RefU <- %s\n  MaxRefs = %d\n  Styles = {%s}\n  FullUsage = %s\n  Faults = %s\n  Emit = %s\n  Quoting <- %s\n"
+            "  Vias = {%s}\n" % (
+                refu, maxrefs, ", ".join('"%s"' % s for s in styles), "TRUE" if full else "FALSE", "TRUE" if faults else "FALSE",
+                "TRUE" if emit else "FALSE", "QuotingTwo" if refu == "RefUQuote" else "NoQuoting",
+                ", ".join('"%s"' % v for v in vias)))
 
 
 def run(tier):
@@ -292,7 +351,9 @@ def run(tier):
                 ("RefUThree", 3, ("plain",), False, False),
                 ("RefUQuote", 3, ("plain",), False, False),
                 ("RefUContents", 2, ("plain", "opt"), False, False),
-                ("RefUPaths", 2, ("plain", "path"), False, False)]
+                ("RefUPaths", 2, ("plain", "path"), False, False),
+                ("RefUQuick", 2, ("plain",), False, False, ("variable", "override")),
+                ("RefUStdout", 2, ("plain", "opt"), False, False)]
     else:
         fams = [("RefUQuick", 2, ("plain", "opt", "path"), True, True),
                 ("RefUSix", 3, ("plain",), True, False),
@@ -303,14 +364,22 @@ def run(tier):
                 ("RefUContents", 2, ("plain",), True, False),
                 ("RefUContents", 2, ("opt", "path"), False, False),
                 ("RefUPaths", 2, ("plain",), True, False),
-                ("RefUPaths", 2, ("path",), False, False)]
+                ("RefUPaths", 2, ("path",), False, False),
+                ("RefUQuick", 2, ("plain",), True, False, ("variable", "override")),
+                ("RefUThree", 3, ("plain", "path"), False, False, ("variable",)),
+                ("RefUStdout", 2, ("plain", "opt", "path"), True, False),
+                ("RefUStdout", 2, ("plain",), False, False, ("variable", "override"))]
     runner = Runner(chk)
     total = 0
-    for k, (refu, maxrefs, styles, full, faults) in enumerate(fams):
-        # 1. design: invariants + coverage
+    for k, fam in enumerate(fams):
+        refu, maxrefs, styles, full, faults = fam[:5]
+        vias = fam[5] if len(fam) > 5 else ("literal",)
+        # 1+2. one TLC run per family (the models are small): the design invariants, per-action coverage (vacuity guard)
+        #      and the emission of every resolved state
         c1 = _cfg(os.path.join(gen, "Subst_mc_%s_%d.cfg" % (tier, k)),
-                  family_cfg(refu, maxrefs, styles, full, faults, False) + "SPECIFICATION Spec\n" + inv + "CHECK_DEADLOCK FALSE\n")
-        res = tlc.run_tlc("Subst", c1, timeout=1500, coverage=True, workers=8)
+                  family_cfg(refu, maxrefs, styles, full, faults, True, vias) + "SPECIFICATION Spec\n" + inv +
+                  "INVARIANT EmitCase\nCHECK_DEADLOCK FALSE\n")
+        res = tlc.run_tlc("Subst", c1, timeout=1500, coverage=True, workers=1)
         if not res["ok"]:
             raise MachineryError("Subst.tla: %s fails on the model:\n%s" % (res["violated"], res["out"][-2500:]))
         need = ["Declare", "Resolve"] + (["DeclareUnused", "ResolveUndeclared"] if faults else [])
@@ -318,24 +387,22 @@ def run(tier):
             if not res["coverage"].get(a):
                 raise MachineryError("action %s of Subst.tla never taken (vacuous run): %s" % (a, res["coverage"]))
         chk.add_tlc(res)
-        # 1b. the deviation must be distinguishable in this family (expected violation)
-        c1b = _cfg(os.path.join(gen, "Subst_dev_%s_%d.cfg" % (tier, k)),
-                   family_cfg(refu, maxrefs, styles, full, faults, False) + "SPECIFICATION Spec\nINVARIANT SequentialAgrees\nCHECK_DEADLOCK FALSE\n")
-        res = tlc.run_tlc("Subst", c1b, timeout=900, workers=1, expect_violation=True)
-        if res["violated"] != "SequentialAgrees" and refu != "RefUContents":     # (that family varies the VALUES, not the names)
-            raise MachineryError("family %d has no input on which sequential replacement differs from exact substitution "
-                                 "(the check would be vacuous): %s" % (k, res["out"][-800:]))
-        # 2. cases
-        c2 = _cfg(os.path.join(gen, "Subst_emit_%s_%d.cfg" % (tier, k)),
-                  family_cfg(refu, maxrefs, styles, full, faults, True) + "SPECIFICATION Spec\nINVARIANT EmitCase\nCHECK_DEADLOCK FALSE\n")
-        res = tlc.run_tlc("Subst", c2, workers=1, timeout=1500)
-        if not res["ok"]:
-            raise MachineryError("Subst.tla: emission failed:\n%s" % res["out"][-2500:])
+        if k == 0:
+            # the named deviation: TLC must exhibit an input on which one-replace-per-reference differs (expected violation)
+            c1b = _cfg(os.path.join(gen, "Subst_dev_%s_%d.cfg" % (tier, k)),
+                       family_cfg(refu, maxrefs, styles, full, faults, False, vias) + "SPECIFICATION Spec\nINVARIANT SequentialAgrees\nCHECK_DEADLOCK FALSE\n")
+            rd = tlc.run_tlc("Subst", c1b, timeout=900, workers=1, expect_violation=True)
+            if rd["violated"] != "SequentialAgrees":
+                raise MachineryError("TLC finds no input on which sequential replacement differs from exact substitution: %s" % rd["out"][-800:])
         uni = [d for d in res["cases"] if d.get("t") == "universe"]
         cases = [d for d in res["cases"] if d.get("t") == "case"]
         if not uni or len(cases) < 50:
             raise MachineryError("TLC emitted %d cases for family %d" % (len(cases), k))
         universe = uni[0]["refs"]
+        # a family that varies the NAMES must contain inputs that tell sequential replacement from exact substitution
+        if refu not in ("RefUContents", "RefUStdout") and not any(c["sequential"] != c["expected"] for c in cases):
+            raise MachineryError("family %d has no input on which sequential replacement differs from exact substitution "
+                                 "(the check would be vacuous)" % k)
         cases.sort(key=lambda c: json.dumps(runner.case_key(c)))
         # 3. spec -> code.  A component whose command line names an undeclared reference is already refused when the
         #    package is loaded, so those cases are loaded one by one (a sub-family in the quick tier)
@@ -343,8 +410,10 @@ def run(tier):
         cases = [c for c in cases if c["fault"] != "undeclared"]
         if not thorough:
             undeclared = undeclared[:: max(1, len(undeclared) // 24)]
-        for b in range(0, len(cases), BATCH):
-            runner.run_batch(universe, cases[b:b + BATCH])
+        for v in vias:
+            group = [c for c in cases if c.get("via", "literal") == v]
+            for b in range(0, len(group), BATCH):
+                runner.run_batch(universe, group[b:b + BATCH])
         for c in undeclared:
             runner.run_batch(universe, [c])
         cases = cases + undeclared
@@ -359,7 +428,8 @@ def run(tier):
     chk.cov["rule"] = ("one case per resolved state of spec/Subst.tla: ordered selection of <= MaxRefs references of the universe "
                        "(names A, BA, B-A, x.A, AB, A0 in stages 0 and 1; :ref, file :ref, :output, :copy; file parts spelled with a trailing "
                        "slash, ./, //, .., globs; :output files with trailing newlines, CRLF, CR, tabs, non-ASCII, undecodable bytes, "
-                       "empty, inner newlines, blanks), usage (relative / absolute "
+                       "empty, inner newlines, blanks; name:output of plain and repeating producers with 0..100 repetitions or none; declarations "
+                       "reaching the graph rewritten by the loader, through a %(variable)s or through override.<platform>), usage (relative / absolute "
                        "/ both / twice), style of the command line, plus unused / undeclared faults; every case is a consumer "
                        "component of a real instantiated experiment; traces = experiments built")
     chk.cov["exhaustive"] = True
